@@ -3,6 +3,8 @@
 package alpha
 
 import (
+	"crypto/sha256"
+	"fmt"
 	"math/big"
 	"math/rand"
 	"sort"
@@ -61,6 +63,20 @@ func Strings256(m *big.Int, level int) []*big.Int {
 	return out
 }
 
+// Fixed returns n unstructured 256-bit integers derived from SHA-256(tag || i): deterministic, the same on every
+// run, but without the limb structure of the other members - defects that need "ordinary looking" operands (a
+// dropped carry in a hand-written multiplication, say) are not triggered by boundary patterns alone.
+func Fixed(n int, tag string) []*big.Int {
+	out := make([]*big.Int, n)
+
+	for i := range out {
+		h := sha256.Sum256([]byte(fmt.Sprintf("verif-fixed-%s-%d", tag, i)))
+		out[i] = new(big.Int).SetBytes(h[:])
+	}
+
+	return out
+}
+
 // Val is a member of a value alphabet: a canonical value in [0, m) together with its Montgomery limbs.
 type Val struct {
 	V   *big.Int
@@ -86,6 +102,10 @@ func Values(m *big.Int, level int) []Val {
 			// s - m is a small value just above a wrap-around; still interesting as a canonical value.
 			base = append(base, new(big.Int).Sub(s, m))
 		}
+	}
+
+	for _, v := range Fixed(12+12*level, "values") {
+		base = append(base, ref.Mod(v, m))
 	}
 
 	if seed := ev.Seed(); seed != 0 {
@@ -185,6 +205,32 @@ func Scalars(level int) []*big.Int {
 				add(new(big.Int).Sub(p, new(big.Int).Lsh(one, j)))
 			}
 		}
+	}
+
+	// runs of ones (2^i - 2^j) of lengths 2, 3, 4, 5, 8 at every position, every nibble value at every nibble
+	// position and a few byte values at every byte position: what a windowed or word-wise ladder would distinguish
+	for i := uint(0); i < 256; i++ {
+		for _, l := range []uint{2, 3, 4, 5, 8} {
+			if i+l <= 256 {
+				add(new(big.Int).Lsh(new(big.Int).Sub(new(big.Int).Lsh(one, l), one), i))
+			}
+		}
+	}
+
+	for i := uint(0); i < 64; i++ {
+		for v := int64(1); v < 16; v++ {
+			add(new(big.Int).Lsh(big.NewInt(v), 4*i))
+		}
+	}
+
+	for i := uint(0); i < 32; i++ {
+		for _, v := range []int64{0x80, 0xff, 0x7f, 0x55, 0xaa} {
+			add(new(big.Int).Lsh(big.NewInt(v), 8*i))
+		}
+	}
+
+	for _, v := range Fixed(16+16*level, "scalars") {
+		add(v)
 	}
 
 	half := new(big.Int).Rsh(n, 1)
